@@ -42,6 +42,7 @@ var replayAdapters = map[string]func(eng *Engine, a *obAgg, f *Oblig, replay map
 // fixedReplays: obligations whose counterexample is schedule/sequence shaped (not a function input): a hand-written
 // adapter drives the real code through the scenario the failed obligation describes.
 var fixedReplays = map[string]struct{ tmpl, pkg, run string }{
+	"GroupFromProto/post/decoded-group-packet-threshold-is-at-most-the-node-count": {"C20_group_packet_threshold_test.go.tmpl", "common/key", "TestVerifReplayC20GroupPacketThreshold"},
 	"NewDKGStore/assert/dkg-database-is-created-owner-only": {"C15_dkgdb_mode_test.go.tmpl", "internal/dkg", "TestVerifReplayC15DKGDBMode"},
 	"(*trimmedBoltCursor).Seek/post/trimmed-seek-never-mislabels": {"C18_trimmed_seek_test.go.tmpl", "internal/chain/boltdb", "TestVerifReplayC18TrimmedSeek"},
 	"(*Handler).run$1/pre/broadcastNextPartial#0/partial-built-on-a-head-not-ahead-of-the-ticked-round": {"C04_head_ahead_of_clock_test.go.tmpl", "internal/chain/beacon", "TestVerifReplayC04HeadAheadOfClock"},
